@@ -118,10 +118,62 @@ def windowLine (j : Json) : String :=
   let n2 := if first + ttl ≤ replay then "ok" else "used"
   s!"window maxvalidity={maxv} accept1={accept first} accept2={accept replay} nonce1=ok nonce2={n2}"
 
+/-! the model's own schedule tree, with the explorer's notion of a choice: a thread that is not finished and not
+    waiting for the mutex; when the mutex is released the longest-waiting thread obtains it (Go's sync.Mutex hands
+    over in arrival order when nobody else competes) -/
+
+structure ESt where
+  w : World
+  q : List Nat   -- threads waiting for the mutex, in arrival order
+
+def waiting (w : World) (i : Nat) : Bool :=
+  match w.ths[i]? with
+  | some (.burn _ .wantLock _) => true
+  | some (.mark _ .wantLock _) => true
+  | _ => false
+
+def choices (w : World) : List Nat :=
+  (List.range w.ths.length).filter fun i =>
+    match w.ths[i]? with
+    | some t => t.outcome.isNone && !waiting w i
+    | none => false
+
+def handoff (cfg : Cfg) : Nat → ESt → ESt
+  | 0, s => s
+  | f + 1, s =>
+    if s.w.lock.isNone then
+      match s.q with
+      | j :: rest => handoff cfg f { w := stepW cfg s.w j, q := rest }
+      | [] => s
+    else s
+
+def choose (cfg : Cfg) (s : ESt) (i : Nat) : ESt :=
+  let w' := stepW cfg s.w i
+  let q' := if waiting w' i && !waiting s.w i then s.q ++ [i] else s.q
+  handoff cfg 8 { w := w', q := q' }
+
+def countLeaves (cfg : Cfg) : Nat → ESt → Nat
+  | 0, _ => 1
+  | f + 1, s =>
+    match choices s.w with
+    | [] => 1
+    | cs => cs.foldl (fun acc i => acc + countLeaves cfg f (choose cfg s i)) 0
+
+def countLine (j : Json) : String :=
+  let cfg := cfgFor j
+  let reqs := (jArr j "threads").filterMap parseReq
+  let st : Store := (jArr j "init").foldl (fun st ij =>
+    match kindOf (jStr ij "kind") with
+    | some k => stPut st ⟨k, jStr ij "id"⟩ ⟨jStr ij "val", cfg.ttl k⟩
+    | none => st) []
+  let n := if jBool j "truncated" then jNat j "n" else countLeaves cfg 64 { w := init st reqs, q := [] }
+  s!"count scenario={jStr j "scn"} threads={reqs.length} schedules={n} truncated={jBool j "truncated"}"
+
 def step (u : Unit) (j : Json) : Unit × List String :=
   match jStr j "op" with
   | "run" => (u, [runLine j])
   | "window" => (u, [windowLine j])
+  | "count" => (u, [countLine j])
   | "note" => (u, ["note " ++ jStr j "text"])
   | o => (u, ["bad-op:" ++ o])
 
